@@ -121,7 +121,6 @@ def compute_air_connection(matrix: jax.Array) -> jax.Array:
         jax.Array: Boolean array marking air regions connected to boundaries.
     """
     inv_matrix = jnp.invert(matrix)
-    n = max([matrix.shape[0], matrix.shape[1], matrix.shape[2]])
     n4_kernel = jnp.asarray(
         [
             [0, 1, 0],
@@ -148,7 +147,15 @@ def compute_air_connection(matrix: jax.Array) -> jax.Array:
         )
         return arr
 
-    connected = jax.lax.fori_loop(0, n, _body_fn, connected)
+    def _cond_fn(state):
+        return state[1]
+
+    def _step_fn(state):
+        new = _body_fn(0, state[0])
+        return new, jnp.any(new != state[0])
+
+    # dilate until nothing changes: a fixed max(shape) passes do not reach the end of winding paths
+    connected, _ = jax.lax.while_loop(_cond_fn, _step_fn, (connected, jnp.asarray(True)))
 
     return connected
 
@@ -172,7 +179,6 @@ def compute_polymer_connection(
     Returns:
         jax.Array: Boolean array marking connected polymer regions.
     """
-    n = max([matrix.shape[0], matrix.shape[1], matrix.shape[2]])
     padded = False
     if matrix.shape[2] == 1:
         padded = True
@@ -203,7 +209,15 @@ def compute_polymer_connection(
         )
         return arr
 
-    connected = jax.lax.fori_loop(0, n, _body_fn, connected)
+    def _cond_fn(state):
+        return state[1]
+
+    def _step_fn(state):
+        new = _body_fn(0, state[0])
+        return new, jnp.any(new != state[0])
+
+    # dilate until nothing changes: a fixed max(shape) passes do not reach the end of winding paths
+    connected, _ = jax.lax.while_loop(_cond_fn, _step_fn, (connected, jnp.asarray(True)))
 
     if padded:
         connected = connected[..., 1:2]
